@@ -124,6 +124,17 @@ func (l *LSTM) Apply(inputs []tensor.Tensor) ([]tensor.Tensor, error) {
 	// Reshape the hidden and cell tensor without the bidirectional dimension, as
 	// we do not support bidirectional yet. This is the dimension at
 	// index 0.
+	// Reshape copies: the initial states may be weights of the model or tensors of the caller.
+	Ht, ok := Ht.Clone().(tensor.Tensor)
+	if !ok {
+		return nil, ops.ErrTypeAssert("tensor.Tensor", Ht)
+	}
+
+	Ct, ok = Ct.Clone().(tensor.Tensor)
+	if !ok {
+		return nil, ops.ErrTypeAssert("tensor.Tensor", Ct)
+	}
+
 	if err = Ht.Reshape(Ht.Shape().Clone()[1:]...); err != nil {
 		return nil, err
 	}
